@@ -161,7 +161,11 @@ def session(draw, max_ops=5, ops_allowed=None, big=True, with_frag=False, with_w
             ops.append({"op": "stat", "path": draw(st.sampled_from(DEV_PATHS))})
         elif kind == "pull":
             path = draw(st.sampled_from(DEV_PATHS))
-            ops.append({"op": "pull", "path": path, "dest": "bytesio", "cb": draw(st.sampled_from([None, None, "rec", "raise"]))})
+            o = {"op": "pull", "path": path, "dest": "bytesio", "cb": draw(st.sampled_from([None, None, "rec", "raise"]))}
+            if fail_plans and draw(st.sampled_from([False, False, True])):
+                o["dest"] = "failing"                      # the local destination runs out of space after a few records
+                o["fail_after"] = draw(st.integers(0, 3))
+            ops.append(o)
             f = files.get(path.encode())
             total += f["content"]["n"] if f else 0
         else:
